@@ -298,7 +298,7 @@ func runTimeouts(cfg Config) {
 		if g.P(1, 3) {
 			cancelAt = g.Intn(40)
 		}
-		if g.P(1, 8) {
+		if i%8 == 5 {
 			// a deadline far away and a cancellation long before it (0 = cancelled before the call)
 			deadline = 4000
 			cancelAt = []int{0, 0, 3, 15, 40}[g.Intn(5)]
